@@ -1,5 +1,5 @@
 PROP = {
-    "groups": ["pausemodel", "pausecomp", "pausedown", "pausedowncomp", "pauseprobe", "e2e-pause"],
+    "groups": ["pausemodel", "pausecomp", "pausedown", "pausedowncomp", "pauseprobe", "pausesend", "e2e-pause"],
     "timeout": 900,
     "nontrivial_floor": 0.02,
     "rule": "pausemodel: the REAL recvCheckV2 and checkStopAndPause of a real trzszTransfer (Timeout 1 s, protocol 2/3/4) are driven "
@@ -25,6 +25,16 @@ PROP = {
             "(buffer grows / does not, marked `pause` or not) starting in the buffer-size probing phase: which of them call bufInitDone() and when "
             "the probing phase ends, against the model; direct oracle: in the probing phase every acknowledgement releases the encoder and "
             "the goroutine never gets stuck; non-trivial = a pause-marked acknowledgement inside the probing phase. "
+            "pausesend: the REAL pipelineSendData goroutine (wire sender of an upload, protocol 3/4 and 2) under real time over queued encoded "
+            "blocks; the ack window fills at once and every scripted take lets one more chunk out; the chunk size (t.bufferSize) is changed "
+            "while blocks are queued so that they are re-split; pause after the first / second piece of a block, twice inside one block, the size "
+            "changing between two pieces, before the zero-length finish chunk, stop while pausing, never resumed, random; every keep-alive, whole "
+            "frame and piece on the wire with its time and every taken ack against the extracted model of the sender at chunk granularity; "
+            "direct oracle on every run: no file data on the wire between the real pause and resume times. "
+            "The same group runs, meanwhile, end-to-end re-split cases: real client and trz, -B 10k, timeout 6 s, one 3.2 s stall of the acknowledgements (chunk size / 3: the queued blocks "
+            "are cut into four pieces), Ctrl-C while the header of the first piece of such a block is held, continue 0.5 s later, protocol 3/4 x "
+            "base64/binary; oracles: at most one DATA chunk begun between pause and resume, no hang, success, identical tree; non-trivial = paused "
+            "inside a split block with keep-alives on the wire. "
             "e2e-pause: real client (filter) vs real trz/tsz children, Ctrl-C typed at a sampled write boundary of either direction, "
             "'Continue' chosen after 0.3-3.5 s, 1-2 cycles, upload/download x base64/binary x protocol 3/4 x directory; oracles: no "
             "hang, success => identical trees, a pause clearly shorter than the timeout does not end in an error, no DATA frame "
@@ -48,7 +58,9 @@ TEXT = {
             "download direction (both proved for the composition of the reader machines themselves, via a simulation to an abstract "
             "machine), and after the last frame of an upload; the download's final-ack loop survives pauses of any length; an un-paused "
             "reader returns within one sleep plus two timeouts; in the buffer-size probing phase every acknowledgement releases the "
-            "encoder whatever its pause flag. The model is tied "
+            "encoder whatever its pause flag; while paused the wire sender writes no file data on any path -- whole frame, piece of a block that "
+            "is re-split because the chunk size shrank, the finish chunk -- except the one chunk already past its check, and re-splitting "
+            "conserves the bytes. The model is tied "
             "to the code by regenerated constants, a regenerated structural skeleton of the eight functions involved, differential "
             "execution of the extracted model against the real functions under real time, and end-to-end pause injection.",
     "note": "Trusted: Coq kernel, gen translator, extraction, OCaml driver, Go harness, the Go runtime's timers. The composition is proved for "
